@@ -740,6 +740,32 @@ ACTION_TEXT_AS_GUARD = '''statechart:
       - name: c
 '''
 
+NO_CODE_CONTRACTS = '''statechart:
+  name: contracts reading __old__ in a statechart that executes no code at all; the client changes the context between the steps
+''' + PRE + '''  root state:
+    name: root
+    initial: a
+    states:
+      - name: a
+        contract:
+          - always: __old__.g >= 0 and x >= 0
+          - after: __old__.g >= 0
+        transitions:
+          - target: b
+            event: e0
+            contract:
+              - after: __old__.g == g
+      - name: b
+        contract:
+          - before: x >= 0
+          - always: __old__.g >= 0
+        transitions:
+          - target: a
+            event: e0
+            contract:
+              - always: __old__.g == g
+'''
+
 
 def deep_chain_yaml(depth=12):
     """root > line > {idle, s1 ... nested `depth` levels (level2..), H* deep history, h shallow history}; names like s1 / s10
@@ -834,6 +860,10 @@ def entries():
 
     out.append(('action_text_as_guard', ACTION_TEXT_AS_GUARD, None,
                 [('exec',), q('e1'), ('exec',), q('e1'), ('exec',), q('e1'), ('exec',), q('e1'), ('exec',), q('e0'), ('exec',), ('exec',)]))
+
+    out.append(('no_code_contracts', NO_CODE_CONTRACTS, None,
+                [('exec',), ('bits', 1), q('e0'), ('exec',), ('bits', 2), q('e0'), ('exec',), ('bits', 3), q('e0'), ('exec',), ('bits', 4),
+                 ('exec',), q('e0'), ('exec',), ('bits', 5), q('e0'), ('exec',), ('exec',)]))
 
     def add_noncontiguous(sc):
         from sismic.model import Transition
